@@ -143,6 +143,16 @@ func (t *Term) rewrite(f func(*Term) *Term) *Term {
 func normalize(t *Term) *Term {
 	switch t.Op {
 	case "call":
+		// an interface method call on a value whose concrete (in-package)
+		// type is known: the method itself
+		if strings.HasPrefix(t.S, "invoke:") && len(t.Args) >= 1 && t.Args[0].Op == "iface" && len(t.Args[0].Args) == 1 {
+			ct := t.Args[0].S
+			if ct != "" && !strings.ContainsAny(ct, "./[ ") {
+				if i := strings.LastIndex(t.S, "."); i > 0 {
+					return &Term{Op: "call", S: "(" + ct + ")" + t.S[i:], Args: append([]*Term{t.Args[0].Args[0]}, t.Args[1:]...)}
+				}
+			}
+		}
 		// a dynamic call whose function value is known: a bound method value
 		// m.F or a plain function
 		if t.S == "dyn" && len(t.Args) >= 1 {
@@ -529,15 +539,13 @@ func (e *termEngine) compute(v ssa.Value) *Term {
 // the arguments (loads and calls in it appear as they would if the expression
 // were written at the call site); the call disappears from terms and facts.
 // Instruction-level analyses (effects, bounds) still see the call itself.
-func (e *termEngine) inlineTrivial(c *ssa.CallCommon) *Term {
-	h := c.StaticCallee()
-	if h == nil || c.IsInvoke() || !e.P.inPkg(h) || len(h.Blocks) != 1 || h.Signature.Results().Len() != 1 || len(h.FreeVars) != 0 {
+// trivialReturn: h is one straight-line block computing one value of a basic
+// type without stores or allocation; returns its Return.
+func (P *Prog) trivialReturn(h *ssa.Function) *ssa.Return {
+	if h == nil || !P.inPkg(h) || len(h.Blocks) != 1 || h.Signature.Results().Len() != 1 || len(h.FreeVars) != 0 {
 		return nil
 	}
 	if _, basic := h.Signature.Results().At(0).Type().Underlying().(*types.Basic); !basic {
-		return nil
-	}
-	if e.inlining[h] {
 		return nil
 	}
 	var ret *ssa.Return
@@ -555,6 +563,42 @@ func (e *termEngine) inlineTrivial(c *ssa.CallCommon) *Term {
 		}
 	}
 	if ret == nil || len(ret.Results) != 1 {
+		return nil
+	}
+	return ret
+}
+
+// inlineTrivialTerms: calls of trivial value helpers that appear in a term
+// only after substitution (e.g. a devirtualised interface method call) are
+// replaced by their expression.
+func (P *Prog) inlineTrivialTerms(t *Term) *Term {
+	if t == nil || !t.contains(func(u *Term) bool { return u.Op == "call" }) {
+		return t
+	}
+	return t.rewrite(func(u *Term) *Term {
+		if u.Op != "call" {
+			return nil
+		}
+		h := P.calleeOfTerm(u)
+		ret := P.trivialReturn(h)
+		if ret == nil {
+			return nil
+		}
+		m := map[string]*Term{}
+		for i, a := range u.Args {
+			m[strconv.Itoa(i)] = a
+		}
+		return P.terms.of(ret.Results[0]).subst(m)
+	})
+}
+
+func (e *termEngine) inlineTrivial(c *ssa.CallCommon) *Term {
+	h := c.StaticCallee()
+	if h == nil || c.IsInvoke() || e.inlining[h] {
+		return nil
+	}
+	ret := e.P.trivialReturn(h)
+	if ret == nil {
 		return nil
 	}
 	m := map[string]*Term{}
